@@ -64,7 +64,8 @@ func main() {
 				*tier = t
 			}
 		}
-		os.Exit(runCheck(prop, *tier, *jobs, *only, *verbose, !*noEvidence))
+		// evidence is only ever written from a run against /repo itself
+		os.Exit(runCheck(prop, *tier, *jobs, *only, *verbose, !*noEvidence && repoDir == "/repo"))
 	case "replay":
 		os.Exit(runReplay(os.Args[2]))
 	case "ssa":
